@@ -1068,3 +1068,47 @@ def rule_known_arguments_threaded(check, rule):
                 else:
                     check.holds(rule, st, '%s hands its known arguments on to %s under their own names' % (fi.name, callee.name), key=key)
     check.floor(rule, 'calls threading the known arguments', n, 5)
+
+
+def rule_forged_visible_to_inspect(check, rule):
+    """C13.R7 (D46): "its reported signature, also as seen by inspect.signature".  inspect knows nothing of sigtools' forgers; an object shows
+    inspect its forged signature through `__signature__ = specifiers.as_forged`.  Every class of wrappers.py whose instances carry a forger
+    -- it calls set_signature_forger on itself, or defines/assigns `_sigtools__forger` -- and are callable has that class attribute
+    (its own or inherited from a class of the package)."""
+    import ast as _ast
+    repo = check.repo
+    m = repo.module('wrappers')
+    n = 0
+    for ci in m.classes.values():
+        callable_ = repo.lookup_method(ci, '__call__') is not None
+        forged = False
+        for meth in ci.methods.values():
+            pos = meth.params()[0]
+            selfn = pos[0] if pos else None
+            for x in _ast.walk(meth.node):
+                if isinstance(x, _ast.Call) and norm(x.func).split('.')[-1] == 'set_signature_forger' and x.args and isinstance(x.args[0], _ast.Name) \
+                        and x.args[0].id == selfn:
+                    forged = True
+                if isinstance(x, _ast.Attribute) and x.attr == '_sigtools__forger' and isinstance(x.ctx, _ast.Store) and isinstance(x.value, _ast.Name) \
+                        and x.value.id == selfn:
+                    forged = True
+        if '_sigtools__forger' in ci.methods or '_sigtools__forger' in ci.assigns:
+            forged = True
+        if not (forged and callable_):
+            continue
+        n += 1
+        check.analysed(ci.methods.get('__call__') or list(ci.methods.values())[0])
+        key = 'inspect-visible|%s' % ci.name
+        st = '%s:%d %s' % (m.relpath, ci.node.lineno, ci.key)
+        has = False
+        for c in repo.mro(ci):
+            v = c.assigns.get('__signature__')
+            if v is not None and norm(v).split('.')[-1] == 'as_forged':
+                has = True
+        if has:
+            check.holds(rule, st, '%s carries a forger and shows it to inspect through __signature__ = as_forged' % ci.name, key=key)
+        else:
+            check.violation(rule, st, '%s carries a forger but has no `__signature__ = specifiers.as_forged`: inspect.signature reports the signature of '
+                            'its __call__ (*args/**kwargs), which accepts calls the combined functions reject' % ci.name, key=key,
+                            witness='inspect.signature(wrappers.Combination(f, g)) is (arg, *args, **kwargs) for f(arg, y), g(arg, y)')
+    check.floor(rule, 'forger-carrying callable classes of wrappers.py', n, 2)
